@@ -94,7 +94,7 @@ pub fn run(ctx: Arc<Ctx>) {
 	ctx.rule(
 		"catalogue of 12 small valid vector tiles built by an independent MVT encoder (disjoint/overlapping layer names, tables in other order / with duplicates / unused entries, ids none/0/2^64-1, all value kinds, extents, empty layer); \
 		 every ordered pair (quick) and every ordered triple (thorough; quick: triples over the first 6) as source lists; each source holds its tile at one coordinate per presence mask, so every presence pattern occurs; source compressions mixed. \
-		 oracle on independently decoded output: layer set, features in source order with id/type/geometry bytes/property set, declared+delivered uncompressed, lookups = stream. non-trivial = (source list, presence mask) with >= 2 sources present",
+		 plus every ordered pair of a bounded-exhaustive family of small layers of one name (5 key tables x 4 value tables x feature lists with every tag list of <= 2 pairs; every 2nd per side in quick, all in thorough) merged through one pipeline whose sources hold layer i resp. j at (10,i,j). oracle on independently decoded output: layer set, features in source order with id/type/geometry bytes/property set, declared+delivered uncompressed, lookups = stream. non-trivial = (source list, presence mask) with >= 2 sources present",
 	);
 	let cat = catalogue();
 	let decoded: Vec<Vec<DLayer>> = cat.iter().map(|(n, t)| mvt::decode_tile(&mvt::encode_tile(t)).unwrap_or_else(|e| panic!("catalogue tile '{n}' does not decode: {e}"))).collect();
@@ -234,10 +234,87 @@ pub fn run(ctx: Arc<Ctx>) {
 		}
 		ctxr.trace(1);
 	});
+	systematic(&ctx, &work.0);
 	ctx.sample(json!({"catalogue": cat.iter().map(|c| c.0).collect::<Vec<_>>(), "example_source_list": tuples[tuples.len() / 2].iter().map(|i| cat[*i].0).collect::<Vec<_>>()}));
 	ctx.outcome_n("source lists (ordered tuples)", tuples.len() as u64);
 	ctx.exhaustive(true);
 	drop(work);
+}
+
+/// Every ordered pair of the bounded-exhaustive small layers (same layer name, so the key/value tables of
+/// both sides must be merged): source A holds layer i at (10, i, j), source B holds layer j there.
+fn systematic(ctx: &Arc<Ctx>, work: &std::path::Path) {
+	let all = mvt::small_layers("a");
+	// quick: every 2nd layer on each side (plus the first 12), thorough: all
+	let pick: Vec<usize> = (0..all.len()).filter(|i| ctx.tier == Tier::Thorough || *i < 12 || i % 2 == 0).collect();
+	let ls: Vec<&mvt::MLayer> = pick.iter().map(|i| &all[*i]).collect();
+	let enc: Vec<Vec<u8>> = ls.iter().map(|l| mvt::encode_tile(&[(*l).clone()])).collect();
+	let dec: Vec<Vec<DLayer>> = enc.iter().map(|b| mvt::decode_tile(b).expect("small layer decodes")).collect();
+	let n = ls.len() as u32;
+	assert!(n <= 1024);
+	let (mut ta, mut tb) = (TileMap::new(), TileMap::new());
+	for i in 0..n {
+		for j in 0..n {
+			ta.insert((10, i, j), enc[i as usize].clone());
+			tb.insert((10, i, j), codec::gzip(&enc[j as usize]));
+		}
+	}
+	let rt = crate::memsource::runtime(8);
+	let sources = vec![MemSource::new("sa", ta, TileFormat::PBF, TileCompression::Uncompressed).with_fast_stream(), MemSource::new("sb", tb, TileFormat::PBF, TileCompression::Gzip).with_fast_stream()];
+	let vpl = "from_vectortiles_merged [ from_container filename=\"mem:0\", from_container filename=\"mem:1\" ]".to_string();
+	let fac = pipeline::factory(sources, work);
+	let op = match pipeline::build_op(&rt, &fac, &vpl) {
+		Ok(o) => o,
+		Err(e) => return ctx.violation("merge pipeline cannot be built", &format!("{vpl}: {e}"), json!({"systematic": true})),
+	};
+	let src = AnySrc::Op(op);
+	let (ctxr, srcr, decr, rtr, pickr): (&Ctx, _, _, _, _) = (ctx, &src, &dec, &rt, &pick);
+	// one stream per 32-row band (streams), plus lookups on the diagonal and the first row/column
+	let bands: Vec<u32> = (0..n).step_by(32).collect();
+	par_for(bands.len(), |bi| {
+		let y0 = bands[bi];
+		let bbox = TileBBox::new(10, 0, y0, n - 1, (y0 + 31).min(n - 1)).unwrap();
+		let items = match catch(|| rtr.block_on(srcr.stream(bbox.clone()))) {
+			Ok(v) => v,
+			Err(p) => return ctxr.violation(&format!("merge stream panics at {}", panic_site(&p)), &p, json!({"systematic": true, "band": y0})),
+		};
+		let mut seen = std::collections::BTreeSet::new();
+		for (key, bytes) in items {
+			let (i, j) = (key.1 as usize, key.2 as usize);
+			ctxr.eval();
+			ctxr.transition(1);
+			if !seen.insert((i, j)) {
+				ctxr.violation("merge stream delivers a coordinate twice", &format!("{key:?}"), json!({"systematic": true, "a": pickr[i], "b": pickr[j]}));
+			}
+			let case = json!({"systematic": true, "a": pickr[i], "b": pickr[j]});
+			match mvt::decode_tile(&bytes) {
+				Err(e) => ctxr.violation("merged tile is not a (uncompressed) vector tile", &format!("small layers #{} + #{}: {e}", pickr[i], pickr[j]), case),
+				Ok(layers) => {
+					let want = reference_merge(&[decr[i].clone(), decr[j].clone()]);
+					if let Some(why) = compare_layers(&layers, &want) {
+						let clause = if why.contains("output layers") || why.contains("twice") {
+							"merged tile has other layers than the union of layer names"
+						} else if why.contains("features, expected") {
+							"merged layer has another number of features"
+						} else {
+							"merged feature differs (id, geometry type, geometry or property set) or is out of source order"
+						};
+						ctxr.violation(clause, &format!("small layers #{} + #{}: {why}", pickr[i], pickr[j]), case);
+					}
+				}
+			}
+			if (i == j || i == 0 || j == 0) && catch(|| rtr.block_on(srcr.lookup(key))).ok().and_then(|r| r.ok()).flatten().as_deref() != Some(&bytes[..]) {
+				ctxr.violation("merge stream and lookup disagree", &format!("coordinate {key:?}"), json!({"systematic": true, "a": pickr[i], "b": pickr[j]}));
+			}
+			ctxr.nontrivial(fnv_str(&format!("sys{i},{j}")));
+		}
+		let rows = (y0 + 31).min(n - 1) - y0 + 1;
+		if seen.len() as u64 != rows as u64 * n as u64 {
+			ctxr.violation("merged tile missing although a source has a tile", &format!("band {y0}: {} of {} tiles", seen.len(), rows as u64 * n as u64), json!({"systematic": true, "band": y0}));
+		}
+	});
+	ctx.extra("systematic_small_layers", json!({"family_size": all.len(), "used_per_side": n, "ordered_pairs": n as u64 * n as u64}));
+	ctx.trace(1);
 }
 
 pub fn replay(_ctx: Arc<Ctx>, case: &Value) {
